@@ -598,6 +598,22 @@ func (rn *runner) dml(i int) bool {
 			nr[0] = rm.Int(nid)
 			sets = append(sets, "id = "+lit(nr[0]))
 			rn.h.Stats["stmt_update_key"]++
+			if r.Intn(3) == 0 {
+				// ... and in the same statement another column changes the row's size: the key changes AND the row moves
+				n := len(old[2].S) - 1 - r.Intn(20)
+				if r.Intn(2) == 0 {
+					n = len(old[2].S) + 1 + r.Intn(600)
+				}
+				if n < 0 {
+					n = 0
+				}
+				nr[2] = rm.Str(payload(r, []int{n}, rn.p.MaxPayload, tag))
+				sets = append(sets, "v = "+lit(nr[2]))
+				if r.Intn(2) == 0 {
+					sets[0], sets[1] = sets[1], sets[0]
+				}
+				rn.h.Stats["stmt_update_key_and_size_change"]++
+			}
 		}
 		sql := fmt.Sprintf("UPDATE %s SET %s WHERE id = %d;", table, strings.Join(sets, ", "), id)
 		return rn.stmt(i, sql, false, func(o *openTxn) { rn.write(o, table, "upd", id, nr) })
